@@ -1149,6 +1149,7 @@ fn replay(lines: &[String], nslots: usize, nctx: usize, plugin: &Option<String>)
         let mut leaked: Vec<i64> = vec![0; nctx];
         for (si, st) in beh.as_array().unwrap().iter().enumerate() {
             steps += 1;
+            vkit::mark_op(st["a"]["op"].as_str().unwrap());
             w.apply(&st["a"]);
             let (v, msg) = w.compare(&st["exp"], st["a"]["op"].as_str().unwrap());
             leaked = st["exp"]["leaked"].as_array().unwrap().iter().map(|x| x.as_i64().unwrap()).collect();
